@@ -55,9 +55,45 @@ func runC12(ctx *Ctx, idx int) {
 	}
 	var ks KeySet
 	dir := directedKeySets()
-	if idx < 2*len(dir) {
+	overLimit := false
+	qmax := 2500
+	nBig := 2
+	if ctx.Tier == "thorough" {
+		nBig = 12
+	}
+	switch j := idx - 2*len(dir); {
+	case j < 0:
 		ks = dir[idx/2] // each directed set once dense (even idx), once sparse (odd idx)
-	} else {
+	case j < 8:
+		// record keys longer than the documented 16 KiB, sharing runs of 32 KiB
+		// and more: the builder may refuse them (C08 owns that boundary), but an
+		// index it does hand out is an index
+		overLimit = true
+		qmax = 200
+		var k []string
+		switch j / 2 {
+		case 0:
+			for i := 0; i < 12; i++ {
+				k = append(k, rep("x", 40000)+string([]byte{byte(i*21 + 1)})+"t")
+			}
+		case 1:
+			for i := 0; i < 26; i++ {
+				k = append(k, rep("\x00", 33000)+string([]byte{byte('a' + i)}))
+			}
+		case 2:
+			k = []string{"a" + rep("y", 17000) + "1", "a" + rep("y", 17000) + "2", "b"}
+		case 3:
+			for i := 0; i < 12; i++ {
+				k = append(k, string([]byte{byte(i + 3)}), "\x40"+rep("\xfe", 36000)+string([]byte{byte(i*20 + 2)}))
+			}
+		}
+		ks = KeySet{"over-limit-run", sortUniq(k)}
+	case j < 8+nBig:
+		// record sets big enough for short-node tables of 9 and 10 bits and for
+		// more than 65535 nodes
+		ks = genBig(r, []int{5, 4, 0, 2, 1, 3, 8, 14}[(j-8)%8])
+		qmax = 600
+	default:
 		ks = genKeySet(r, scale)
 	}
 	keys := ks.Keys
@@ -67,7 +103,7 @@ func runC12(ctx *Ctx, idx int) {
 	if n >= 2 {
 		ctx.Nontrivial(mix(hashStr(keys...), uint64(idx%2)))
 	}
-	qs := genQueries(r.Fork(), keys, 2500)
+	qs := genQueries(r.Fork(), keys, qmax)
 	present := map[string]int{}
 	for i, k := range keys {
 		present[k] = i
@@ -122,6 +158,21 @@ func runC12(ctx *Ctx, idx int) {
 			mode = "sparse"
 		}
 		ctx.Violate("C12/"+clause+"/"+mode, d)
+	}
+	if overLimit && pv == nil && err != nil {
+		ctx.Count("over_limit:refused", 1)
+		return
+	}
+	if overLimit {
+		ctx.Count("over_limit:accepted", 1)
+	}
+	if si != nil && pv == nil && err == nil && (n >= 20000 || idx%16 == 0) {
+		// what did the index look like? (statistics for the evidence only)
+		try(func() {
+			if b, e := si.SlimTrie.Marshal(); e == nil {
+				countShape(ctx, classify(parseSlim(b)))
+			}
+		})
 	}
 	if pv != nil || err != nil {
 		viol("build-failed", "", map[string]interface{}{"panic": fmt.Sprint(pv), "error": fmt.Sprint(err), "stack": stack})
@@ -379,6 +430,37 @@ func runC17(ctx *Ctx, idx int) {
 	if sz > bound {
 		viol("size-bound", map[string]interface{}{"size": sz, "bound": bound, "bytes_per_key": float64(sz) / float64(n)})
 	}
+	// the same index held by an instance that is refreshed in place (st.Unmarshal
+	// of the same data on the used object, eight times - a process that re-reads
+	// its index file periodically) and serialised again: it is still the
+	// filter-mode index of these n keys, so the bound applies to what it writes
+	if idx%2 == 0 {
+		pv, _ := try(func() {
+			st, err := trie.NewSlimTrie(encode.Dummy{}, keys, nil)
+			if err != nil {
+				return
+			}
+			b, _ := st.Marshal()
+			live, _ := trie.NewSlimTrie(encode.Dummy{}, nil, nil)
+			for rep := 0; rep < 8; rep++ {
+				if live.Unmarshal(b) != nil {
+					return
+				}
+				out, err := live.Marshal()
+				if err != nil {
+					return
+				}
+				if len(out) > bound {
+					viol("size-bound-after-in-place-reload", map[string]interface{}{"size": len(out), "size_fresh": sz, "bound": bound, "reloads": rep + 1})
+					return
+				}
+			}
+			ctx.Count("reloaded_in_place_and_remarshalled", 1)
+		})
+		if pv != nil {
+			viol("reload-panic", map[string]interface{}{"panic": fmt.Sprint(pv)})
+		}
+	}
 	ctx.Max("size_permille_of_bound", int64(sz*1000/bound))
 	if n >= 100 {
 		ctx.Max("millibytes_per_key_n>=100", int64(sz*1000/n))
@@ -613,6 +695,46 @@ func runC19(ctx *Ctx, idx int) {
 			viol("loaded-renders-differently", "loaded", map[string]interface{}{"fresh_len": len(s1), "loaded_len": len(s2)})
 		}
 		ctx.Count("fresh_equals_loaded", 1)
+		// rendering in company: four goroutines render the same trie (and a
+		// by-value copy of it) at once; each must produce what one produces alone
+		if t == 0 && n <= 3000 {
+			cp := *st
+			outs := make([]string, 4)
+			done := make(chan int, 4)
+			for g := 0; g < 4; g++ {
+				go func(g int) {
+					defer func() {
+						if p := recover(); p != nil {
+							outs[g] = "panic: " + fmt.Sprint(p)
+						}
+						done <- g
+					}()
+					for rep := 0; rep < 3; rep++ {
+						var x string
+						if g%2 == 0 {
+							x = st.String()
+						} else {
+							x = cp.String()
+						}
+						if x != s1 {
+							outs[g] = x
+							return
+						}
+					}
+					outs[g] = s1
+				}(g)
+			}
+			for g := 0; g < 4; g++ {
+				<-done
+			}
+			for g := 0; g < 4; g++ {
+				if outs[g] != s1 {
+					viol("renders-differently-in-company", "fresh", map[string]interface{}{"goroutine": g, "alone_len": len(s1), "in_company_len": len(outs[g]), "in_company_head": truncate(outs[g], 200)})
+					break
+				}
+			}
+			ctx.Count("rendered_by_4_goroutines_at_once", 1)
+		}
 		// a by-value copy is a snapshot: it renders the same after the original
 		// has been reloaded and reset
 		if t%2 == 1 {
